@@ -104,4 +104,26 @@ def recovery(storage_dir: str, case: str, ok_values: list):
         elif not executed and not any(res[t2] == v for v in ok_values):
             out.append(('reported-cached-but-wrong-value', f'reported by {who}; loaded {str(res[t2])[:120]!r}'))
         return out, True
+    # not reported as cached: then a later run simply has to produce the result (by executing the
+    # task again) - an entry that is "not cached" for is_cached but still makes later runs fail is
+    # exactly the poisoning the properties exclude.  Done on a copy, the directory itself is left as found.
+    if CASES[case][1] in ('small', 'multi', 'blob'):
+        cp = tmpdir('rerun_')
+        try:
+            shutil.rmtree(cp)
+            shutil.copytree(storage_dir, cp, symlinks=True)
+            lab3 = labtech.Lab(storage=LocalStorage(cp, with_gitignore=False), runner_backend='serial', notebook=False)
+            t3 = mk_task(case)
+            WORLD.reset(epoch=52)
+            try:
+                res3 = lab3.run_tasks([t3], disable_progress=True, disable_top=True)
+            except BaseException as e:  # noqa
+                out.append(('not-cached-but-later-run-raised', f'not reported as cached, yet a later run_tasks raised {type(e).__name__}: {e}'))
+                return out, False
+            if t3 not in res3:
+                out.append(('not-cached-but-later-run-fails', 'not reported as cached, yet a later run_tasks fails to produce the result'))
+            elif res3[t3] != value_of(case, 52) and not any(res3[t3] == v for v in ok_values):
+                out.append(('not-cached-but-later-run-wrong-value', f'not reported as cached; a later run returned {str(res3[t3])[:120]!r}'))
+        finally:
+            shutil.rmtree(cp, ignore_errors=True)
     return out, False
